@@ -102,7 +102,13 @@ pub fn decoder_families<V: Fv, W: Fv>(seed: u64, thorough: bool, out: &mut Shard
             out.emit(decode_event::<V>(ty, &b, "header"));
         }
         // lengths
-        for &l2 in &[0usize, 1, 2, len - 1, len + 1, other_len[ti].1, 2 * len] {
+        // (also: the right encoding followed by 2^j, 8192 k extra bytes -- a length or bit count kept in a narrow integer type)
+        let mut lens2 = vec![0usize, 1, 2, len - 1, len + 1, other_len[ti].1, 2 * len, len + 2, len + 31, len + 32, len + 255, len + 256, len + 4096, len + 8191,
+                             len + 8192, len + 8193, len + 16384, len + 24576, len + 65536];
+        if thorough {
+            lens2.extend([len + 4, len + 8, len + 16, len + 64, len + 128, len + 512, len + 1024, len + 2048, len + 32768, len + 131072]);
+        }
+        for &l2 in &lens2 {
             let mut b = hb.clone();
             b.resize(l2, 0);
             out.emit(decode_event::<V>(ty, &b, "length"));
